@@ -20,6 +20,8 @@ import (
 	"os"
 	"sync"
 	"sync/atomic"
+
+	"github.com/bluenviron/gortsplib/v5/pkg/base"
 	"time"
 
 	"github.com/bluenviron/gortsplib/v5"
@@ -685,6 +687,20 @@ func c01record(sc *c01scn, s *vt.Sink) error {
 			tr.Emit("barrier", "r", 1)
 		} else {
 			time.Sleep(3 * time.Millisecond)
+		}
+		if round == 0 && sc.Rounds > 1 && sc.Seed%3 == 0 {
+			// the application refuses a PAUSE of the publisher (status 400, connection kept): the
+			// publisher goes on recording, and what it writes afterwards is owed like before
+			var once atomic.Bool
+			bd.OnPauseHook = func() *base.Response {
+				if once.CompareAndSwap(false, true) {
+					return &base.Response{StatusCode: base.StatusBadRequest}
+				}
+				return nil
+			}
+			if _, err := c.Pause(); err == nil {
+				tr.Emit("pause_not_refused")
+			}
 		}
 	}
 	tr.Emit("stop", "r", 1)
